@@ -18,7 +18,9 @@
 package client
 
 import (
+	"bytes"
 	"context"
+	"crypto/sha256"
 	"encoding/base64"
 	"fmt"
 	"net/http"
@@ -27,6 +29,7 @@ import (
 	ct "github.com/google/certificate-transparency-go"
 	"github.com/google/certificate-transparency-go/jsonclient"
 	"github.com/google/certificate-transparency-go/tls"
+	"github.com/google/certificate-transparency-go/x509"
 )
 
 // LogClient represents a client for a given CT Log instance
@@ -94,8 +97,10 @@ func (c *LogClient) addChainWithRetry(ctx context.Context, ctype ct.LogEntryType
 		}
 	}
 
-	var logID ct.LogID
-	copy(logID.KeyID[:], resp.ID)
+	logID, err := c.checkedLogID(resp.ID)
+	if err != nil {
+		return nil, RspError{Err: err, StatusCode: httpRsp.StatusCode, Body: body}
+	}
 	sct := &ct.SignedCertificateTimestamp{
 		SCTVersion: resp.SCTVersion,
 		LogID:      logID,
@@ -138,6 +143,27 @@ func (c *LogClient) GetSTH(ctx context.Context) (*ct.SignedTreeHead, error) {
 		return nil, RspError{Err: err, StatusCode: httpRsp.StatusCode, Body: body}
 	}
 	return sth, nil
+}
+
+// checkedLogID returns the log ID for an SCT built from an add-chain response.
+// The ID is not covered by the SCT signature, so when the client knows the
+// log's public key the ID in the response must be the hash of that key (an
+// absent ID is filled in with it); without a key the ID is taken as sent.
+func (c *LogClient) checkedLogID(id []byte) (ct.LogID, error) {
+	var logID ct.LogID
+	if c.Verifier == nil {
+		copy(logID.KeyID[:], id)
+		return logID, nil
+	}
+	pubBytes, err := x509.MarshalPKIXPublicKey(c.Verifier.PubKey)
+	if err != nil {
+		return logID, fmt.Errorf("failed to marshal the log's public key: %v", err)
+	}
+	logID.KeyID = sha256.Sum256(pubBytes)
+	if len(id) > 0 && !bytes.Equal(id, logID.KeyID[:]) {
+		return logID, fmt.Errorf("response names log %x, want %x", id, logID.KeyID)
+	}
+	return logID, nil
 }
 
 // VerifySTHSignature checks the signature in sth, returning any error encountered or nil if verification is
